@@ -244,6 +244,43 @@ def history(ctx, seed, ref):
         ctx.sample({'history_seed': seed, 'ops': [o if o[0] != 'call' else ['call', o[1], list(o[2]), o[3]] for o in ops[:8]]})
 
 
+def two_dirs(ctx, seed):
+    """two data directories that use the same basis file names and the same reference keys for different contents, queried
+    alternately in this process: every answer must be what a fresh process that only ever saw that directory returns"""
+    from .. import datadir
+    from basis_set_exchange import curate
+    rng = random.Random(seed)
+    gds = [datadir.GenDir(random.Random(seed * 2 + k), nbasis=2) for k in (1, 2)]
+    refs = [Reference(), Reference()]
+    try:
+        for gd in gds:
+            if impl.call(curate.create_metadata_file, os.path.join(gd.path, 'METADATA.json'), gd.path)[0] != 'ok':
+                return
+        calls = []
+        for k, gd in enumerate(gds):
+            for b in gd.bases:
+                nm = b['names'][0]
+                calls += [(k, 'bse.get_references', (nm, ), {'fmt': f, 'data_dir': gd.path}) for f in ('txt', 'bib', None)]
+                calls += [(k, 'bse.get_basis', (nm, ), {'data_dir': gd.path}), (k, 'bse.get_basis', (nm, ), {'data_dir': gd.path, 'fmt': 'nwchem', 'header': True}),
+                          (k, 'bse.get_basis_notes', (nm, ), {'data_dir': gd.path}), (k, 'bse.get_basis_family', (nm, ), {'data_dir': gd.path})]
+            calls += [(k, 'bse.get_metadata', (), {'data_dir': gd.path}), (k, 'bse.get_reference_data', (gd.path, ), {}),
+                      (k, 'bse.get_families', (), {'data_dir': gd.path}), (k, 'bse.get_family_notes', ('famA'.lower(), gd.path), {})]
+        rng.shuffle(calls)
+        for k, name, args, kw in calls + calls[:len(calls) // 2]:
+            got = norm(local_call(name, copy.deepcopy(args), copy.deepcopy(kw)))
+            want = norm(refs[k].call(name, args, kw))
+            ctx.case(('two-dirs', seed, k, name, repr(args), repr(sorted(kw.items(), key=str))), True, 'two-dirs:' + name)
+            if got != want:
+                ctx.violation('memo.BSEMemoize', 'two-directories', 'with two data directories queried alternately, %s%s %s returns something else than a process that only saw that directory'
+                              % (name, args, {a: b for a, b in kw.items() if a != 'data_dir'}), {'kind': 'two-dirs', 'seed': seed})
+                break
+    finally:
+        for r in refs:
+            r.close()
+        for gd in gds:
+            gd.cleanup()
+
+
 def binding_shapes(ctx):
     """all positional / keyword / default binding shapes of every memoised signature: _make_key vs the model vs Python's
     own binding (inspect.signature.bind)"""
@@ -419,6 +456,8 @@ def run(ctx):
             history(ctx, ctx.seed * 13 + i, ref)
         for i in range(ctx.budget(60, 1500)):
             poison(ctx, ctx.seed * 5 + i, ref)
+        for i in range(ctx.budget(4, 60)):
+            two_dirs(ctx, ctx.seed * 17 + i)
         for i, nt in enumerate([2, 4, 8, 16] * ctx.budget(1, 10)):
             threads(ctx, ctx.seed * 7 + i, ref, nt)
         for i, nt in enumerate([4, 8, 16] * ctx.budget(1, 10)):
@@ -437,6 +476,8 @@ def replay(ctx, rec):
             threads(ctx, r['seed'], ref, r['nthreads'])
         elif r.get('kind') == 'poison':
             poison(ctx, r['seed'], ref)
+        elif r.get('kind') == 'two-dirs':
+            two_dirs(ctx, r['seed'])
         elif r.get('kind') == 'cold-threads':
             cold_threads(ctx, r['seed'], r['nthreads'])
         else:
